@@ -54,7 +54,7 @@ pub fn all() -> Vec<PropDef> {
             runs: crate::gen_sm2sig::runs_c03,
             run: crate::gen_sm2sig::run_c03,
             isolated: crate::gen_sm2sig::isolated_c03,
-            rule: "seeded runs of 1-4 interleaved SM2 signature sessions (key class incl. limb-boundary keys x ID class incl. empty, 8191-byte and non-ASCII IDs x message class x signer in {library, reference} x key delivery; a quarter of the sessions sign again with the same key); nonce through the RNG seam; Annex A example and 24 OpenSSL signatures in run 0; a case is one (op, all input bytes, RNG script) on which at least one C03 oracle was evaluated; distinct = distinct hashes of those inputs; plus two-caller operations (`par`: two library calls on two simulated caller threads, switched only at RNG draws and std::sync primitives in a seeded order), dedicated (20 runs) and inside the session interleavings",
+            rule: "seeded runs of 1-4 interleaved SM2 signature sessions (key class incl. limb-boundary keys x ID class incl. empty, 8191-byte and non-ASCII IDs x message class x signer in {library, reference} x key delivery; a quarter of the sessions sign again with the same key); nonce through the RNG seam; Annex A example and 24 OpenSSL signatures in run 0; a case is one (op, all input bytes, RNG script) on which at least one C03 oracle was evaluated; distinct = distinct hashes of those inputs; plus two-caller operations (`par`: two library calls on two simulated caller threads, switched only at RNG draws and std::sync primitives in a seeded order), dedicated (20 runs) and inside the session interleavings; half of the dedicated two-caller runs execute in a worker process of their own (first-use races); damaged-first histories (a damaged signature is the verifier's first contact with the key)",
             assumptions: &[REF_ASSUME, SAMPLE_ASSUME],
             exhaustive_per_sample: false,
         },
@@ -64,7 +64,7 @@ pub fn all() -> Vec<PropDef> {
             runs: crate::gen_sm2sig::runs_c04,
             run: crate::gen_sm2sig::run_c04,
             isolated: never_isolated,
-            rule: "per seeded sample (pk, id, msg, sig) every fault of the menu is applied on a fork of the world and delivered to the library's verify: all 512 bit flips of r||s, every length 0..=130, component substitutions (0,1,n-1,n,n+1,2^256-1,n-r,n-s,+n,swap), two-byte cancelling faults, message/ID/public-key faults, misdelivery, random pairs, and signatures/keys crafted by an adversary (k = 0 and equal-points pairs by the key owner; an order-2 invalid-curve key with a forged signature); every faulted delivery is preceded and followed by the genuine one in the same world; a case is one delivered (pk, id, msg, sig) tuple on which a C04 oracle was evaluated; the two base sessions' calls are now and then made by two simulated caller threads (`par`)",
+            rule: "per seeded sample (pk, id, msg, sig) every fault of the menu is applied on a fork of the world and delivered to the library's verify: all 512 bit flips of r||s, every length 0..=130, component substitutions (0,1,n-1,n,n+1,2^256-1,n-r,n-s,+n,swap), two-byte cancelling faults, message/ID/public-key faults, misdelivery, random pairs, and signatures/keys crafted by an adversary (k = 0 and equal-points pairs by the key owner; an order-2 invalid-curve key with a forged signature); every faulted delivery is preceded and followed by the genuine one in the same world; a case is one delivered (pk, id, msg, sig) tuple on which a C04 oracle was evaluated; the two base sessions' calls are now and then made by two simulated caller threads (`par`); the same (r,s) in other framings (DER SEQUENCE of INTEGERs, hex, base64, padded / length-prefixed parts)",
             assumptions: &[REF_ASSUME, "the reference verifier, not 'was it modified', decides validity of a delivered tuple", SAMPLE_ASSUME],
             exhaustive_per_sample: true,
         },
@@ -74,7 +74,7 @@ pub fn all() -> Vec<PropDef> {
             runs: crate::gen_sm2enc::runs_c05,
             run: crate::gen_sm2enc::run_c05,
             isolated: crate::gen_sm2enc::isolated_c05,
-            rule: "seeded runs of 1-3 interleaved SM2 encryption sessions over 2 orders x 2 C1 forms x encryptor in {library, reference}; run i covers message length (i mod 300)+1 so every length 1..=300 occurs, plus lengths up to 5000 (quick) / 65536 (thorough); nonce through the RNG seam (scripted rare nonce whose KDF output is zero; Annex A example); 12 OpenSSL ciphertexts in 4 framings; the KDF at klen on both sides of every counter-byte boundary up to 65537 and an 8200-byte message; 30 runs x 50 reference-made ciphertexts delivered to the library; a quarter of the sessions reuse the key pair in another configuration; a case is one (op, input bytes, RNG script) on which a C05 oracle was evaluated; plus two-caller operations (`par`: two library calls on two simulated caller threads, switched only at RNG draws and std::sync primitives in a seeded order), dedicated (20 runs) and inside the session interleavings",
+            rule: "seeded runs of 1-3 interleaved SM2 encryption sessions over 2 orders x 2 C1 forms x encryptor in {library, reference}; run i covers message length (i mod 300)+1 so every length 1..=300 occurs, plus lengths up to 5000 (quick) / 65536 (thorough); nonce through the RNG seam (scripted rare nonce whose KDF output is zero; Annex A example); 12 OpenSSL ciphertexts in 4 framings; the KDF at klen on both sides of every counter-byte boundary up to 65537 and an 8200-byte message; 30 runs x 50 reference-made ciphertexts delivered to the library; a quarter of the sessions reuse the key pair in another configuration; a case is one (op, input bytes, RNG script) on which a C05 oracle was evaluated; plus two-caller operations (`par`: two library calls on two simulated caller threads, switched only at RNG draws and std::sync primitives in a seeded order), dedicated (20 runs) and inside the session interleavings; half of the dedicated two-caller runs in a fresh process, decrypt||decrypt with compressed C1; damaged-first histories",
             assumptions: &[REF_ASSUME, SAMPLE_ASSUME],
             exhaustive_per_sample: false,
         },
@@ -84,7 +84,7 @@ pub fn all() -> Vec<PropDef> {
             runs: crate::gen_sm2enc::runs_c06,
             run: crate::gen_sm2enc::run_c06,
             isolated: never_isolated,
-            rule: "per seeded sample ciphertext (4 configurations cycled) every fault of the menu on a fork of the world, then the library's decrypt: every single-bit flip, every truncation length, extensions, misdelivered ciphertext/key, wrong framing, two-byte cancelling faults in C3/C2, C1 := 2*C1 / -C1 / every prefix byte / off-curve / zero / p / compressed non-residue, crafted victim-consistent ciphertexts (invalid-curve point, zero point, coordinate >= p, non-residue x with the unchecked root); every faulted delivery is preceded and followed by the genuine one in the same world; a case is one delivered (d, ciphertext, config) on which a C06 oracle was evaluated; the two base sessions' calls are now and then made by two simulated caller threads (`par`)",
+            rule: "per seeded sample ciphertext (4 configurations cycled) every fault of the menu on a fork of the world, then the library's decrypt: every single-bit flip, every truncation length, extensions, misdelivered ciphertext/key, wrong framing, two-byte cancelling faults in C3/C2, C1 := 2*C1 / -C1 / every prefix byte / off-curve / zero / p / compressed non-residue, crafted victim-consistent ciphertexts (invalid-curve point, zero point, coordinate >= p, non-residue x with the unchecked root); every faulted delivery is preceded and followed by the genuine one in the same world; a case is one delivered (d, ciphertext, config) on which a C06 oracle was evaluated; the two base sessions' calls are now and then made by two simulated caller threads (`par`); the same ciphertext in other framings (GM/T 0009 DER, hex, base64, DER wrappings) delivered to the raw API",
             assumptions: &[REF_ASSUME, "the strict reference decryptor, not 'was it modified', decides what may be accepted", "the crafting adversary knows d (a real attacker learns it piecewise through exactly these queries)", SAMPLE_ASSUME],
             exhaustive_per_sample: true,
         },
@@ -94,7 +94,7 @@ pub fn all() -> Vec<PropDef> {
             runs: crate::gen_zuc::runs_c08,
             run: crate::gen_zuc::run_c08,
             isolated: crate::gen_zuc::isolated_c08,
-            rule: "request histories on ZUC generator objects: exhaustively every composition of totals 1..=12 (each also with a zero-length request at every position) for the 3 official and 1 seeded (key, iv); plus seeded runs of 1-4 interleaved generators with a per-run request-size law; a case is one request (key, iv, stream offset, size) checked against the reference keystream vector",
+            rule: "request histories on ZUC generator objects: exhaustively every composition of totals 1..=12 (each also with a zero-length request at every position) for the 3 official and 1 seeded (key, iv); plus seeded runs of 1-4 interleaved generators with a per-run request-size law; a case is one request (key, iv, stream offset, size) checked against the reference keystream vector; 12 fresh-process runs in which the FIRST requests of two generators (1..4096 words) are made by two simulated caller threads; two generators driven by two callers now and then inside the seeded runs",
             assumptions: &[REF_ASSUME, "(key, iv) pairs are sampled; the s16==0 branch (probability 2^-31 per step) is reported by probe, not claimed covered"],
             exhaustive_per_sample: true,
         },
@@ -104,7 +104,7 @@ pub fn all() -> Vec<PropDef> {
             runs: crate::gen_sm9::runs_c09,
             run: crate::gen_sm9::run_c09,
             isolated: crate::gen_sm9::isolated_c09,
-            rule: "SM9 signature sessions with KGC, signer and verifier played by the library or the reference (random r through the RNG seam, exact comparison with GM/T 0044.2, Annex A example), then per seeded sample the fault menu on (h,S) in transit: every bit of h and S, h in {0,1,N-2,N-1,N,N+1,2^256-1,h+N}, S := 2S/-S/P1/zero, changed message/identity/master public key, misdelivery, random pairs; a case is one op (inputs as delivered) on which a C09 oracle was evaluated; plus two-caller operations (`par`: two library calls on two simulated caller threads, switched only at RNG draws and std::sync primitives in a seeded order) for sign||sign and verify||verify; input relations: a second identity colliding with the first under one of 16 common 32-bit string hashes (corpus/id_collisions.json), master secret = H1(ID), 2*H1(ID), -H1(ID)",
+            rule: "SM9 signature sessions with KGC, signer and verifier played by the library or the reference (random r through the RNG seam, exact comparison with GM/T 0044.2, Annex A example), then per seeded sample the fault menu on (h,S) in transit: every bit of h and S, h in {0,1,N-2,N-1,N,N+1,2^256-1,h+N}, S := 2S/-S/P1/zero, changed message/identity/master public key, misdelivery, random pairs; a case is one op (inputs as delivered) on which a C09 oracle was evaluated; plus two-caller operations (`par`: two library calls on two simulated caller threads, switched only at RNG draws and std::sync primitives in a seeded order) for sign||sign and verify||verify; input relations: a second identity colliding with the first under one of 16 common 32-bit string hashes (corpus/id_collisions.json), master secret = H1(ID), 2*H1(ID), -H1(ID); one long history (1 100 / 70 000 distinct identities verified under one master key, valid signatures of the first six revisited at 2^k entries and at the end); damaged-first histories",
             assumptions: &[REF_ASSUME, "tamper oracle: library Ok => the strict reference verifier accepts the delivered tuple", SAMPLE_ASSUME],
             exhaustive_per_sample: true,
         },
@@ -114,7 +114,7 @@ pub fn all() -> Vec<PropDef> {
             runs: crate::gen_sm9::runs_c10,
             run: crate::gen_sm9::run_c10,
             isolated: crate::gen_sm9::isolated_c10,
-            rule: "SM9 encryption sessions (every message length 1..=255 per batch; encryptor library or reference; random r through the RNG seam, exact comparison with GM/T 0044.4 incl. Annex A and a scripted r whose K1 is zero), then per seeded sample the fault menu on the ciphertext: every bit, every truncation, extensions, other identity, C1 := other points / every prefix byte, crafted victim-consistent off-curve C1; a case is one op (inputs as delivered) on which a C10 oracle was evaluated; plus two-caller operations (`par`: two library calls on two simulated caller threads, switched only at RNG draws and std::sync primitives in a seeded order) for encrypt||encrypt and decrypt||decrypt; colliding identity pairs and identity-related master secrets as in C09; crafted conforming ciphertexts whose C1 has an edge coordinate (x in 0..5, p-6..p-1) must open",
+            rule: "SM9 encryption sessions (every message length 1..=255 per batch; encryptor library or reference; random r through the RNG seam, exact comparison with GM/T 0044.4 incl. Annex A and a scripted r whose K1 is zero), then per seeded sample the fault menu on the ciphertext: every bit, every truncation, extensions, other identity, C1 := other points / every prefix byte, crafted victim-consistent off-curve C1; a case is one op (inputs as delivered) on which a C10 oracle was evaluated; plus two-caller operations (`par`: two library calls on two simulated caller threads, switched only at RNG draws and std::sync primitives in a seeded order) for encrypt||encrypt and decrypt||decrypt; colliding identity pairs and identity-related master secrets as in C09; crafted conforming ciphertexts whose C1 has an edge coordinate (x in 0..5, p-6..p-1) must open; one long history (1 100 / 70 000 distinct recipients, early ones revisited with exact ciphertext comparison); damaged-first histories; the same ciphertext in other framings (GM/T 0044 DER, hex, base64)",
             assumptions: &[REF_ASSUME, "tamper oracle: a plaintext may be returned only where the strict reference decryptor returns the same one", "the crafting adversary knows de and evaluates the victim's pairing through the verification wrapper", SAMPLE_ASSUME],
             exhaustive_per_sample: true,
         },
@@ -124,7 +124,7 @@ pub fn all() -> Vec<PropDef> {
             runs: crate::gen_sm9::runs_c17,
             run: crate::gen_sm9::run_c17,
             isolated: crate::gen_sm9::isolated_c17,
-            rule: "SM9 key exchange between initiator and responder played by the library or the reference (ephemeral scalars through the RNG seam, exact comparison of R_A and SK with GM/T 0044.3, Annex A example), then per seeded sample faults on R_A or R_B in transit (every 8th bit in quick / every bit in thorough, other valid point, zero, off-curve, p); a case is one protocol step or session end on which a C17 oracle was evaluated; identity pairs colliding under common 32-bit string hashes and identity-related master secrets",
+            rule: "SM9 key exchange between initiator and responder played by the library or the reference (ephemeral scalars through the RNG seam, exact comparison of R_A and SK with GM/T 0044.3, Annex A example), then per seeded sample faults on R_A or R_B in transit (every 8th bit in quick / every bit in thorough, other valid point, zero, off-curve, p); a case is one protocol step or session end on which a C17 oracle was evaluated; identity pairs colliding under common 32-bit string hashes and identity-related master secrets; 10 runs of two honest exchanges in lock step on two simulated caller threads",
             assumptions: &[REF_ASSUME, "'modified in transit' is decided on wire bytes, as the property states it", SAMPLE_ASSUME],
             exhaustive_per_sample: true,
         },
@@ -134,7 +134,7 @@ pub fn all() -> Vec<PropDef> {
             runs: crate::gen_c14::runs_c14,
             run: crate::gen_c14::run_c14,
             isolated: crate::gen_c14::isolated_c14,
-            rule: "all 11 randomised call sites of gm-sm2 and gm-sm9 (SM2 keygen/sign/encrypt/exchange_1/exchange_2; SM9 sign- and enc-master keygen, sign, encrypt, exch_step_1a/1b) behind the RNG seam: (enumeration) each out-of-range candidate of the menu {0, order, order+1, order+2^64, 2^256-1, p-2, (order+p)/2} offered first at each site, double faults, in-range edge candidates, eight bad candidates in a row (draw budget); (M1) seeded runs of 3-8 calls with uniform scripts in one world; the scalar actually used is recovered from each call's output by the reference and must have been offered in that call, lie in [1, order-1] and be new; (M3, labelled non-replayable) the real generator observed through the seam: per-bit frequency against the exact uniform expectation at 8 sigma, duplicates, three fresh processes. A case is one randomised call (inputs, script) on which a C14 oracle was evaluated; bulk duplicate detection over 400 000 (SM9) / 25 000 (SM2) scalars in one process; two fresh processes under one simulated environment (frozen clock, pid, address layout) must share no scalar; two randomised calls by two simulated caller threads",
+            rule: "all 11 randomised call sites of gm-sm2 and gm-sm9 (SM2 keygen/sign/encrypt/exchange_1/exchange_2; SM9 sign- and enc-master keygen, sign, encrypt, exch_step_1a/1b) behind the RNG seam: (enumeration) each out-of-range candidate of the menu {0, order, order+1, order+2^64, 2^256-1, p-2, (order+p)/2} offered first at each site, double faults, in-range edge candidates, eight bad candidates in a row (draw budget); (M1) seeded runs of 3-8 calls with uniform scripts in one world; the scalar actually used is recovered from each call's output by the reference and must have been offered in that call, lie in [1, order-1] and be new; (M3, labelled non-replayable) the real generator observed through the seam: per-bit frequency against the exact uniform expectation at 8 sigma, duplicates, three fresh processes. A case is one randomised call (inputs, script) on which a C14 oracle was evaluated; bulk duplicate detection over 400 000 (SM9) / 25 000 (SM2) scalars in one process; two fresh processes under one simulated environment (frozen clock, pid, address layout) must share no scalar; two randomised calls by two simulated caller threads; 24 runs in which two simulated caller threads draw from the REAL generator at the same or different sites (half in a fresh process): what they obtain must differ",
             assumptions: &[REF_ASSUME, "M3 consumes operating-system randomness: its inputs cannot be replayed bit-for-bit; a replay re-runs the statistic (false-alarm probability < 1e-12 per run at 8 sigma)", "entropy is judged by per-bit frequency and repetition only; no claim of cryptographic unpredictability"],
             exhaustive_per_sample: true,
         },
@@ -144,7 +144,7 @@ pub fn all() -> Vec<PropDef> {
             runs: crate::gen_sm2kex::runs_c15,
             run: crate::gen_sm2kex::run_c15,
             isolated: crate::gen_sm2kex::isolated_c15,
-            rule: "four-message SM2 key agreement between parties played by the library or the reference ({lib,lib},{lib,ref},{ref,lib}); honest runs over key/ID/klen classes with ephemeral scalars scripted through the RNG seam (exact comparison of R, S_B, S_A, K with GB/T 32918.3; Annex A example), then for each sample all 16 subsets of {R_A,R_B,S_B,S_A} x {bit flip, substitution, off-curve point} plus faults on the responder's stored R_A; a case is one protocol step (inputs as delivered) on which a C15 oracle was evaluated",
+            rule: "four-message SM2 key agreement between parties played by the library or the reference ({lib,lib},{lib,ref},{ref,lib}); honest runs over key/ID/klen classes with ephemeral scalars scripted through the RNG seam (exact comparison of R, S_B, S_A, K with GB/T 32918.3; Annex A example), then for each sample all 16 subsets of {R_A,R_B,S_B,S_A} x {bit flip, substitution, off-curve point} plus faults on the responder's stored R_A; a case is one protocol step (inputs as delivered) on which a C15 oracle was evaluated; 24 runs of two honest agreements in lock step, the two calls of every step made by two simulated caller threads (so one party's steps run on different threads)",
             assumptions: &[REF_ASSUME, "a tampered run is judged by the reference party in the same position on the same delivered bytes, never by 'was it modified'", SAMPLE_ASSUME],
             exhaustive_per_sample: true,
         },
@@ -154,7 +154,7 @@ pub fn all() -> Vec<PropDef> {
             runs: crate::gen_c19::runs_c19,
             run: crate::gen_c19::run_c19,
             isolated: never_isolated,
-            rule: "key documents (SEC1 compressed/uncompressed, hex, SPKI DER/PEM; private bytes, hex, PKCS#8 DER/PEM, SEC1 DER) written by the library or the reference and read by the library, over key classes incl. coordinates with leading zero bytes; the committed OpenSSL corpus (documents, GM/T 0009 ciphertexts, signatures); GM/T 0009 ASN.1 ciphertext sessions whose ephemeral scalar comes through the RNG seam from a committed rare-event table (C1.x / C1.y with 1-3 leading or trailing zero bytes, top-bit patterns); then per stored document every bit flip (binary) or character substitution (text), 00/FF at every position, every truncation, extensions and semantic substitutions (coordinates = p, 2^256-1, 0, prefixes, boundary d). A case is one op (inputs as stored/delivered) on which a C19 oracle was evaluated; encrypt_asn1 at the DER length-form boundary sizes (127/128, 255/256, 65535/65536 for the OCTET STRING and the SEQUENCE)",
+            rule: "key documents (SEC1 compressed/uncompressed, hex, SPKI DER/PEM; private bytes, hex, PKCS#8 DER/PEM, SEC1 DER) written by the library or the reference and read by the library, over key classes incl. coordinates with leading zero bytes; the committed OpenSSL corpus (documents, GM/T 0009 ciphertexts, signatures); GM/T 0009 ASN.1 ciphertext sessions whose ephemeral scalar comes through the RNG seam from a committed rare-event table (C1.x / C1.y with 1-3 leading or trailing zero bytes, top-bit patterns); then per stored document every bit flip (binary) or character substitution (text), 00/FF at every position, every truncation, extensions and semantic substitutions (coordinates = p, 2^256-1, 0, prefixes, boundary d). A case is one op (inputs as stored/delivered) on which a C19 oracle was evaluated; encrypt_asn1 at the DER length-form boundary sizes (127/128, 255/256, 65535/65536 for the OCTET STRING and the SEQUENCE); the pristine document is read again after a damaged one",
             assumptions: &[REF_ASSUME, "documents produced by OpenSSL 3.5.6 at development time (corpus/) are conforming", "round-trip clauses are deterministic functions that the simulation merely samples; its specific contribution is the seam-chosen ephemeral point and the stored-byte faults", SAMPLE_ASSUME],
             exhaustive_per_sample: true,
         },
@@ -164,7 +164,7 @@ pub fn all() -> Vec<PropDef> {
             runs: crate::gen_c20::runs_c20,
             run: crate::gen_c20::run_c20,
             isolated: crate::gen_c20::isolated_c20,
-            rule: "every receive-side entry point (SM2 verify; decrypt in 4 configurations; decrypt_asn1; public-key decoders for SEC1 bytes, hex, SPKI DER/PEM incl. FromStr; private-key decoders for bytes, hex, PKCS#8 DER/PEM, SEC1; Sm4Cipher::new, block encrypt/decrypt, CBC/CFB/OFB/CTR decrypt over data, IV and key lengths; SM9 decrypt and verify_sign; mod_n_from_hash; SM2 kdf and compute_za) is fed every length 0..=200 of zero / FF / seeded content and every truncation, extensions to +66 and every single-byte corruption (^01, ^80, :=00, :=FF) of a valid encoding; boundary private keys (0, 1, 2, n-3..n+1, 2^256-2, 2^256-1) that a constructor accepts must let sign and encrypt finish within the RNG draw budget. A case is one call (entry point, input bytes); the oracle is its outcome class in {Ok, Err}; one long history in a single process: 70 000 distinct inputs through the cheap helpers and 5 000 (thorough 70 000) distinct keys through sign/verify/encrypt/decrypt",
+            rule: "every receive-side entry point (SM2 verify; decrypt in 4 configurations; decrypt_asn1; public-key decoders for SEC1 bytes, hex, SPKI DER/PEM incl. FromStr; private-key decoders for bytes, hex, PKCS#8 DER/PEM, SEC1; Sm4Cipher::new, block encrypt/decrypt, CBC/CFB/OFB/CTR decrypt over data, IV and key lengths; SM9 decrypt and verify_sign; mod_n_from_hash; SM2 kdf and compute_za) is fed every length 0..=200 of zero / FF / seeded content and every truncation, extensions to +66 and every single-byte corruption (^01, ^80, :=00, :=FF) of a valid encoding; boundary private keys (0, 1, 2, n-3..n+1, 2^256-2, 2^256-1) that a constructor accepts must let sign and encrypt finish within the RNG draw budget. A case is one call (entry point, input bytes); the oracle is its outcome class in {Ok, Err}; one long history in a single process: 70 000 distinct inputs through the cheap helpers and 5 000 (thorough 70 000) distinct keys through sign/verify/encrypt/decrypt; 120 two-caller runs at receive-side entry points (public-key decoders in all encodings, SM2 decrypt incl. compressed C1, SM2 and SM9 verify; one side warm, one input now and then damaged); a well-formed input after every eighth malformed one",
             assumptions: &["panics are caught with catch_unwind; RNG-driven loops by the 64-draw budget; other hangs by a 20 s wall-clock watchdog; aborts (stack overflow, allocation failure) by the ./check wrapper's serial re-run with an in-flight journal", "inputs are enumerated per entry point over the stated menus, not over all byte strings"],
             exhaustive_per_sample: true,
         },
